@@ -120,6 +120,17 @@ def surface(ctx, n, dt, tts, nodal, trim, start, stt_steps=0.0, red='scalar', fo
     acc = lib.surface.get_time_shift_motions(asig, tt_arg, nodal=nodal, up_red=ur_arg, down_red=dr_arg, stt=stt,
                                              trim=trim, start=start)
     ctx.observe('e', e)
+    if red == 'rows':
+        # the same argument objects are used for the next call (as a caller computing energy and then cumulative energy for
+        # one profile does): they must not have been written to, and the second call must give the same rows
+        ctx.claim('reduction_factor_and_travel_time_arguments_unchanged',
+                  S.sym_and(*([ctx.eq(ur_arg[i], ur_o[i], 10.0) for i in range(k)] + [ctx.eq(dr_arg[i], dr_o[i], 10.0) for i in range(k)] +
+                              ([ctx.eq(tt_arg[i], tt[i], 10.0) for i in range(k)] if form != 'scalar' else []))))
+        e_again = lib.surface.calc_surface_energy(asig, tt_arg, nodal=nodal, up_red=ur_arg, down_red=dr_arg, stt=stt, trim=trim,
+                                                  start=start)
+        r1, r2 = _rows(e, k), _rows(e_again, k)
+        ctx.claim('same_rows_when_called_again_with_the_same_argument_objects',
+                  S.sym_and(len(r1) == len(r2), *[ctx.eq(x, y, 1e3 * (n + 8) ** 2) for p_, q_ in zip(r1, r2) for x, y in zip(p_, q_)]))
     full_acc = _oracle_acc(vals, dt, tt, nodal, ur_o, dr_o)
     full_e = []
     for row in full_acc:
